@@ -18,7 +18,7 @@ RULE = ("generated: intervals (forward / inverted / absolute) over Date, naive D
         "an end inside a repeated hour with fold 0/1, whole-day gaps), ends exactly reachable / one microsecond off, values next to 0001-01-01 and 9999-12-31; "
         "__iter__; `x in interval` for x at start/end +-1us, random x and x in other zones; every yielded x tested with `in`; single add/subtract calls with "
         "amounts up to 12*10^4.  Result = interval start/end/invert after construction + every yielded (wall, fold, utcoffset) + how the iteration ended "
-        "(long lists: first/last 20, length, sha256, first non-monotone index).  non-trivial = at least 2 values yielded or an exception or a membership answer.")
+        "(long lists: first/last 20, length, sha256, first non-monotone index).  non-trivial = every distinct (interval, unit, step) or (interval, x) input.")
 EXHAUSTIVE = {"quick": False, "thorough": False}
 VM_SUBSET = 60
 TRUSTED = ["zoneinfo.ZoneInfo + tzdata and CPython's date/datetime/calendar arithmetic are the specification side of the oracle; Spec/Zone.v models zoneinfo's lookups (validated by C02's zone-spec stream); "
